@@ -20,6 +20,8 @@ var c09Flags = [][]string{
 	{"-v", "CHF"},
 	{"-v", "CHF", "--months"},
 	{"--close=false", "-a", "--days", "--last", "2"},
+	// a mapping rule with a suffix (the shortened path is assembled from two parts of the account's segments)
+	{"-m", "1:1,Checking", "-m", "1:2,Rent"},
 }
 
 type c09Case struct{ Body []jr.Dir }
